@@ -8,6 +8,22 @@ From Cyecca Require Import Base.Ops Gen.Quadrotor Proofs.C16.
 Import ListNotations.
 Local Open Scope R_scope.
 
+Lemma relax_lim m0 u0 tau : 0 < tau -> is_lim (fun t => u0 + (m0 - u0) * exp (- t / tau)) p_infty u0.
+Proof.
+  intro Ht.
+  replace (Finite u0) with (Rbar_plus u0 (Rbar_mult (m0 - u0) 0)) by (simpl; f_equal; ring).
+  apply is_lim_plus'. apply is_lim_const.
+  apply (is_lim_scal_l (fun t => exp (- t / tau)) (m0 - u0) p_infty (Finite 0)).
+  apply is_lim_comp with m_infty.
+  - apply is_lim_exp_m.
+  - replace m_infty with (Rbar_mult (Finite (- / tau)) p_infty).
+    + eapply is_lim_ext; [| apply is_lim_scal_l; apply is_lim_id ]. intro y. simpl. unfold Rdiv. ring.
+    + simpl. destruct (Rle_dec 0 (- / tau)) as [H|H].
+      * exfalso. pose proof (Rinv_0_lt_compat tau Ht). lra.
+      * reflexivity.
+  - exists 0. intros. discriminate.
+Qed.
+
 Section P.
 Variables (tau_up tau_down d0 d1 d2 d3 l0 l1 l2 l3 th0 th1 th2 th3 CT CM Cl_p Cm_q Cn_r CD0 S rho g m Jx Jy Jz : R).
 Variables (n0 n1 n2 n3 n4 n5 n6 n7 n8 n9 n10 n11 : R).
@@ -68,5 +84,10 @@ Lemma motor_sol_bound : 0 < tau_up -> 0 < tau_down -> forall m0 u0 t, 0 <= t ->
   Rabs (motor_sol m0 u0 t - u0) <= Rabs (m0 - u0).
 Proof.
   intros Hup Hdn m0 u0 t Ht. rewrite <- (motor_sol_0 m0 u0) at 2. apply motor_sol_monotone; assumption.
+Qed.
+Lemma motor_sol_lim : 0 < tau_up -> 0 < tau_down -> forall m0 u0, is_lim (motor_sol m0 u0) p_infty u0.
+Proof.
+  intros Hup Hdn m0 u0. unfold motor_sol. apply relax_lim.
+  unfold motor_tau; destruct (Rlt_dec m0 u0); assumption.
 Qed.
 End P.
